@@ -24,10 +24,14 @@ def det_scenarios(seed, tier):
         s["executor"] = "seq"           # the statement is about the sequential executor
     modular = [{"seed": seed * 977 + 1, "popsize": 12, "executor": "seq", "start": "modular", "fitness": 6, "epochs": 8, "preset": 5},
                {"seed": seed * 977 + 2, "popsize": 20, "executor": "seq", "start": "modular", "fitness": 7, "epochs": 8, "preset": 0}]
+    # structure-only speciation (no mutation-number term): exact ties between equally compatible species are common
+    ties = [{"seed": seed * 613 + k, "popsize": 60, "executor": "seq", "start": "xor", "fitness": 7, "epochs": 20, "preset": [3, 0, 5, 1][k],
+             "override": {"mutdiff": 0, "thr": 2.5, "addnode": 0.2, "addlink": 0.3}} for k in range(4)]
+    modular = modular + ties
     if tier == "quick":
         picked = scs[::4][:10] + modular
         for s in picked:
-            s["epochs"] = 8
+            s["epochs"] = max(8, s["epochs"] if s.get("override") else 0)
     else:
         picked = scs + modular + [dict(m, seed=m["seed"] + 10, preset=(m["preset"] + 1) % 6) for m in modular]
         for i, s in enumerate(picked):
@@ -39,9 +43,9 @@ def det_scenarios(seed, tier):
 @pipeline("C17")
 def c17(ctx, replay):
     thorough = ctx.tier == "thorough"
-    nproc = 5 if thorough else 3
+    nproc = 6 if thorough else 5
     ctx.rule = ("scenarios = constructor (NewPopulation from two non-modular start genomes and a modular one with two modules, NewPopulationRandom, ReadPopulation) x option preset x "
-                "fitness family x population size, sequential executor; each list of scenarios is run in %d separate processes under "
+                "fitness family x population size (plus modular genomes and structure-only speciation where exact distance ties are common), sequential executor; each list of scenarios is run in %d separate processes under "
                 "different GOMAXPROCS / GOGC / environment size / heap ballast / an unrelated clock-seeded evolution before re-seeding / "
                 "forced collections; every construction and epoch is logged as SHA-1 digests of the exact float64 bit patterns of all "
                 "organisms, the species table and the counters; Determinism.tla requires the l-th states of all runs to be identical; "
@@ -105,7 +109,7 @@ def c17(ctx, replay):
 
 
 CHECKS = {
- "C17": dict(text="Determinism.tla defines a run as the sequence of population states after construction and after every epoch and requires the l-th states of all recorded runs of the same scenarios to be identical; the runs are recorded from the real code in 3 (quick) / 5 (thorough) separate processes under different GOMAXPROCS, GOGC, environment size, heap ballast, an unrelated clock-seeded evolution before re-seeding and forced collections, with bit-exact digests of every organism, the species table and the counters; TLC names the first diverging scenario, generation and part.",
-             note="Sampled scenarios (quick: 10 scenarios x 8 epochs x 3 processes; thorough: 48 scenarios x 20-40 epochs x 5 processes); nondeterminism that shows only with low probability per epoch (e.g. a rarely executed map iteration) can be missed by a quick run. Trusted: TLC, SHA-1, the digest function (harness/cmd/vh_genome/determinism.go).",
+ "C17": dict(text="Determinism.tla defines a run as the sequence of population states after construction and after every epoch and requires the l-th states of all recorded runs of the same scenarios to be identical; the runs are recorded from the real code in 5 (quick) / 6 (thorough) separate processes under different GOMAXPROCS, GOGC, environment size, heap ballast, an unrelated clock-seeded evolution before re-seeding and forced collections, with bit-exact digests of every organism, the species table and the counters; TLC names the first diverging scenario, generation and part.",
+             note="Sampled scenarios (quick: 16 scenarios x 8-20 epochs x 5 processes; thorough: 70 scenarios x 20-40 epochs x 6 processes); nondeterminism that shows only with low probability per epoch (e.g. a rarely executed map iteration) can be missed by a quick run. Trusted: TLC, SHA-1, the digest function (harness/cmd/vh_genome/determinism.go).",
              technique=B1, ref="DESIGN.md 7/C17"),
 }
